@@ -38,6 +38,7 @@ fn worker<P: Pat>(
     seed: u64,
     iters: u64,
     pace_us: u64,
+    role: u64,
     config: &Config,
     name: &ServiceName,
 ) -> Vec<(u64, Value)> {
@@ -47,17 +48,33 @@ fn worker<P: Pat>(
     let mut evs = Vec::with_capacity(iters as usize * 2 + 16);
     let mut actor: Actor<P> = Actor::new(config, t);
     sh.barrier(n as u64);
-    for _ in 0..iters {
+    for it in 0..iters {
         let held = actor.held_slots();
         let free = actor.free_slot();
         let roll = rng.below(100);
-        let op = match (free, held.is_empty()) {
-            (Some(slot), _) if roll < 18 => Op::Create { c: *rng.pick(&set.creators), slot },
-            (Some(slot), _) if roll < 42 => Op::Open { c: *rng.pick(&set.openers), slot },
-            (Some(slot), _) if roll < 58 && P::HAS_OOC => Op::Ooc { c: *rng.pick(&set.creators), slot },
-            (_, false) if roll < 93 => Op::Drop { slot: *rng.pick(&held) },
-            _ if roll < 97 => Op::Exist,
-            _ => Op::List,
+        let op = match role {
+            // creator only (the slow-motion process): a fixed cycle create|open_or_create, exist, drop
+            1 => match (free, held.is_empty()) {
+                (Some(slot), true) if (it / 3) % 2 == 0 || !P::HAS_OOC => Op::Create { c: *rng.pick(&set.creators), slot },
+                (Some(slot), true) => Op::Ooc { c: *rng.pick(&set.creators), slot },
+                (_, false) if it % 3 == 2 => Op::Drop { slot: *rng.pick(&held) },
+                _ => Op::Exist,
+            },
+            // opener only (the free-running peers of a slow-motion creator)
+            2 => match (free, held.is_empty()) {
+                (Some(slot), _) if roll < 50 => Op::Open { c: *rng.pick(&set.openers), slot },
+                (_, false) if roll < 85 => Op::Drop { slot: *rng.pick(&held) },
+                _ if roll < 95 => Op::Exist,
+                _ => Op::List,
+            },
+            _ => match (free, held.is_empty()) {
+                (Some(slot), _) if roll < 18 => Op::Create { c: *rng.pick(&set.creators), slot },
+                (Some(slot), _) if roll < 42 => Op::Open { c: *rng.pick(&set.openers), slot },
+                (Some(slot), _) if roll < 58 && P::HAS_OOC => Op::Ooc { c: *rng.pick(&set.creators), slot },
+                (_, false) if roll < 93 => Op::Drop { slot: *rng.pick(&held) },
+                _ if roll < 97 => Op::Exist,
+                _ => Op::List,
+            },
         };
         do_op::<P>(sh, &mut evs, t, &mut actor, &op, name, &set.cfgs, config, &dflt);
         perturb(&mut rng, pace_us);
@@ -92,7 +109,7 @@ pub fn run<P: Pat>(args: &Args) -> Value {
         .collect();
     let procs = args.flag("procs");
     let timeout = args.num("timeout", 20_000);
-    let tag = args.get_or("tag", "");
+    let tag = util::run_token(args);
     let slow = args.num("slow", 0);
     let slow_us = args.num("slow-us", 1500);
     let slow_iters = args.num("slow-iters", iters / 20 + 1);
@@ -100,7 +117,7 @@ pub fn run<P: Pat>(args: &Args) -> Value {
     let seed = vlib::seed_from_env();
     let mut out = TraceWriter::create(&args.get("out").expect("--out"));
     let mode = if procs { "procs" } else { "conc" };
-    let shared_path = format!("{root}/{mode}-{}.shared", P::NAME);
+    let shared_path = format!("{root}/{mode}-{}-{tag}.shared", P::NAME);
     let sh = Shared::open(&shared_path, true);
     let name: ServiceName = "c06/svc".try_into().unwrap();
     let mut counts = std::collections::BTreeMap::<String, u64>::new();
@@ -110,7 +127,7 @@ pub fn run<P: Pat>(args: &Args) -> Value {
 
     for run in 0..runs {
         let threads = tlist[run as usize % tlist.len()];
-        let droot = format!("{root}/{mode}{}_{run}", P::NAME);
+        let droot = format!("{root}/{mode}{}{tag}_{run}", P::NAME);
         let prefix = format!("c6{tag}{}{}{run}_", if procs { "p" } else { "c" }, P::NAME);
         let config = util::make_config(&droot, &prefix, timeout);
         let set = cfg_set(P::NAME, false);
@@ -125,7 +142,7 @@ pub fn run<P: Pat>(args: &Args) -> Value {
                 let hs: Vec<_> = (0..threads)
                     .map(|t| {
                         let (sh, config, name, s) = (&sh, &config, &name, wseeds[t]);
-                        sc.spawn(move || worker::<P>(sh, t, threads, s, iters, 0, config, name))
+                        sc.spawn(move || worker::<P>(sh, t, threads, s, iters, 0, 0, config, name))
                     })
                     .collect();
                 for h in hs {
@@ -161,6 +178,7 @@ pub fn run<P: Pat>(args: &Args) -> Value {
                         &shared_path, "--t", &t.to_string(), "--n", &threads.to_string(), "--wseed",
                         &wseeds[t].to_string(), "--iters", &child_iters.to_string(), "--timeout", &timeout.to_string(),
                         "--pace-us", &(if slow > 0 && !is_slow { pace_us } else { 0 }).to_string(),
+                        "--role", &(if slow == 0 { 0 } else if is_slow { 1 } else { 2 }).to_string(),
                         "--events", &evfile,
                     ])
                     .spawn()
@@ -169,6 +187,10 @@ pub fn run<P: Pat>(args: &Args) -> Value {
             }
             for (mut ch, evfile) in children {
                 let st = ch.wait().expect("wait child");
+                if st.code() == Some(2) {
+                    eprintln!("drv-service: a child process reported a harness problem");
+                    std::process::exit(2);
+                }
                 if !st.success() {
                     panics += 1;
                 }
@@ -201,7 +223,7 @@ pub fn child<P: Pat>(args: &Args) {
     let n = args.num("n", 1) as usize;
     let config = util::make_config(&droot, &prefix, args.num("timeout", 20_000));
     let name: ServiceName = "c06/svc".try_into().unwrap();
-    let evs = worker::<P>(&sh, t, n, args.num("wseed", 1), args.num("iters", 100), args.num("pace-us", 0), &config, &name);
+    let evs = worker::<P>(&sh, t, n, args.num("wseed", 1), args.num("iters", 100), args.num("pace-us", 0), args.num("role", 0), &config, &name);
     let mut out = TraceWriter::create(&args.get("events").expect("--events"));
     for (g, ev) in evs {
         out.emit(&json!({"g":g,"ev":ev}));
